@@ -328,7 +328,23 @@ def contract_frame_obligations(keys):
         name = 'frame:%s' % key
         if fq is None or ctr.kind == 'property' and ctr.setter:
             continue
-        reach = prog.reachable([fq])
+        if ctr.frame_prune or ctr.frame_dispatch:
+            # calls that cannot happen under this contract's precondition (the VC shows the call site unreachable)
+            reach, todo = set(), [fq]
+            while todo:
+                x = todo.pop()
+                if x in reach or x not in prog.fns:
+                    continue
+                reach.add(x)
+                for c in prog.fns[x].calls:
+                    nm = c.rsplit('.', 1)[-1]
+                    if nm in ctr.frame_prune:
+                        continue
+                    if nm in ctr.frame_dispatch and c not in ctr.frame_dispatch[nm]:
+                        continue        # an override of another class: not reachable with this static class of self
+                    todo.append(c)
+        else:
+            reach = prog.reachable([fq])
         written, mutated, params = {}, {}, set()
         for r in reach:
             f = prog.fns[r]
